@@ -39,6 +39,8 @@ pub struct HelloSpec {
     /// handshake messages coalesced into the same record ahead of the ClientHello (RFC 5246 6.2.1 allows
     /// several messages of one content type per record): this many empty HelloRequest messages
     pub coalesced_before: usize,
+    /// make the record body (the bytes after the 5-byte record header) exactly this long, if reachable by padding
+    pub exact_body: Option<usize>,
 }
 
 pub fn random_spec(r: &mut Rng, max_len: usize) -> HelloSpec {
@@ -70,6 +72,7 @@ pub fn random_spec(r: &mut Rng, max_len: usize) -> HelloSpec {
         grease: r.chance(1, 2),
         target_len,
         coalesced_before: if r.chance(1, 12) { r.urange(1, 3) } else { 0 },
+        exact_body: None,
     }
 }
 
@@ -204,6 +207,16 @@ pub fn client_hello(r: &mut Rng, s: &HelloSpec) -> Vec<u8> {
             if eb.len() > 65000 {
                 break;
             }
+        }
+    }
+    // exact size: one more padding extension of exactly the missing length (its own 4 header bytes included)
+    if let Some(want) = s.exact_body {
+        let have = 4 * s.coalesced_before + 4 + body.len() + 2 + eb.len();
+        if want >= have + 4 {
+            let n = want - have - 4;
+            let mut e = vec![];
+            ext(&mut e, 21, &vec![0u8; n]);
+            eb.extend_from_slice(&e);
         }
     }
     // clamp so that the record length fits 16 bits
